@@ -402,9 +402,15 @@ func effectMatcher(v *specmatch.SpecView, r specRow) (func(s specmatch.Stmt, ass
 				return false
 			}
 		}
-		if rhsText != "_" && join(v.Render(p.R, assigned)) != wantR {
+		if rhsText != "_" && join(v.Render(p.R, assigned)) != wantR && commJoin(v.Render(p.R, assigned)) != commJoin(strings.Fields(wantR)) {
 			return false
 		}
 		return true
 	}, nil
+}
+
+// commJoin renders an expression with the operands of commutative operators in lexical order (`1 + idx` is `idx + 1`).
+func commJoin(toks []string) string {
+	wrapped := append(append([]string{"("}, toks...), ")")
+	return strings.Join(specmatch.CommutativeNorm(wrapped), " ")
 }
